@@ -226,7 +226,10 @@ func (r *ctxRunner) runInst(s, d int, only *ctxCase) {
 			}
 		}
 	}
-	if (only == nil || only.Pass == "nan-neighbour") && dyn.Types[s].Kind == dyn.Float {
+	// (the passes from here on do not depend on history or on named types: built-in instantiations only,
+	// and not again in the reverse-order process)
+	extra := only != nil || (s < dyn.NB && d < dyn.NB && !core.Reversed())
+	if extra && (only == nil || only.Pass == "nan-neighbour") && dyn.Types[s].Kind == dyn.Float {
 		// a NaN somewhere in the buffer (its own result is unspecified and not looked at) must not change
 		// what the other samples become
 		nan := math.Float64bits(math.NaN())
@@ -256,7 +259,29 @@ func (r *ctxRunner) runInst(s, d int, only *ctxCase) {
 			}
 		}
 	}
-	if only == nil || only.Pass == "uneven" {
+	if extra && (only == nil || only.Pass == "constant") {
+		// the whole buffer holds one value (silence, a clipped plateau): shortcuts for "all samples equal"
+		// or "all zero" must still give every position its own result
+		for si, v := range sp {
+			for ni, n := range []int{1, 2, 40} {
+				if only != nil && (only.Spec != si || only.Pos != ni) {
+					continue
+				}
+				in := make([]uint64, n)
+				for i := range in {
+					in[i] = v
+				}
+				out := make([]uint64, n)
+				dyn.ConvBlockCh(s, d, n, 1)(in, out)
+				for i := range in {
+					if r.check(mk("constant", 1, si, ni), s, d, in[i], out[i], base, fmt.Sprintf("[a buffer of %d samples that all hold %s; position %d]", n, ctxShow(s, v), i)) {
+						break
+					}
+				}
+			}
+		}
+	}
+	if extra && (only == nil || only.Pass == "uneven") {
 		// source longer than the destination, and the other way round (blocked loops anchor their tail
 		// block at the end of the wrong buffer): lengths that are not multiples of the usual block sizes
 		for vi, n := range []int{130, 300, 1100} {
@@ -281,7 +306,7 @@ func (r *ctxRunner) runInst(s, d int, only *ctxCase) {
 			}
 		}
 	}
-	if only == nil || only.Pass == "provenance" {
+	if extra && (only == nil || only.Pass == "provenance") {
 		// the source buffer came about in an unusual way (dyn.ConvVia): filled only through windows of
 		// it, recycled by a pool, or first the destination of another conversion.  State that a buffer
 		// header carries about its own contents (a "silent" or "already in range" flag) goes stale there.
@@ -339,6 +364,9 @@ func (r *ctxRunner) giant(s, d int, lens []int, only *ctxCase) {
 		for _, ch := range []int{1, 3} {
 			if only != nil && (only.Pos != L || only.Ch != ch) {
 				continue
+			}
+			if only == nil && L >= 1<<24 && ch != 1 {
+				continue // the longest buffers with one channel only (each takes seconds)
 			}
 			in := make([]uint64, L)
 			for i := range in {
@@ -516,6 +544,9 @@ func ctxPasses(c *core.Ctx, prop string, judge ctxJudge, equal bool, filter func
 		sub := &ctxRunner{c: c, prop: prop, judge: judge, equal: true, cap: r.cap}
 		sub.equalOnlyTail = !equal // properties without the equality clause still need "written at all": judged below
 		ls := lens
+		if c.Quick() && (s >= dyn.NB || d >= dyn.NB) {
+			return // quick tier: very long buffers for the built-in instantiations only (named twins share their code)
+		}
 		// quick tier: the 2^22+5 length for one instantiation of each conversion function
 		mu.Lock()
 		if fn := dyn.ConvName(s, d); len(lens) > 0 && !seenFn[fn] && s != d {
